@@ -86,7 +86,8 @@ fn p_line(l: Line) -> String {
 
 /// every thick-line clause of C17 on the real `Styled<Line>::pixels()`, exact integer arithmetic
 fn p_thick(l: Line, w: u32) -> String {
-    let pts: Vec<Point> = l.into_styled(PrimitiveStyle::with_stroke(Gray8::new(1), w)).pixels().map(|p| p.0).collect();
+    let pts: Vec<Point> =
+        l.into_styled(PrimitiveStyle::with_stroke(Gray8::new(1), w)).pixels().map(|p| p.0).take(pixel_budget(&l, w)).collect();
     let thin: Vec<Point> = l.points().collect();
     if w == 0 {
         return if pts.is_empty() { "OK 0".into() } else { format!("FAIL width-0 draws {}", pts.len()) };
@@ -176,8 +177,18 @@ fn p_thick(l: Line, w: u32) -> String {
     format!("OK {}", pts.len())
 }
 
+/// C17_thick_terminates: at most (3w+2)*(dmaj+1) pixels; one more is let through so that a runaway iterator
+/// shows up as a mismatch instead of a hang
+pub fn pixel_budget(l: &Line, w: u32) -> usize {
+    let dx = (l.end.x as i64 - l.start.x as i64).abs();
+    let dy = (l.end.y as i64 - l.start.y as i64).abs();
+    ((3 * w as u64 + 2) * (dx.max(dy) as u64 + 1) + 1) as usize
+}
+
 fn thick(a: &[&str]) -> impl Iterator<Item = Point> {
-    ln(a).into_styled(PrimitiveStyle::with_stroke(Gray8::new(1), u(a[4]))).pixels().map(|p| p.0)
+    let l = ln(a);
+    let w = u(a[4]);
+    l.into_styled(PrimitiveStyle::with_stroke(Gray8::new(1), w)).pixels().map(|p| p.0).take(pixel_budget(&l, w))
 }
 
 pub fn run(suite: &str, a: &[&str]) -> Option<String> {
